@@ -278,7 +278,10 @@ def compare_stream(chk, eng, cases, label):
                             ("default" if got[1] == "MD" else "match-later")))
         if "op" in c:
             chk.dist("op.%s" % c["op"])
-        if nontrivial and len(chk.cov["samples"]) < 4 and c.get("stream") in ("trees", "order", "glob"):
+        want_sample = {"ops": 1, "glob": 2, "trees": 3, "order": 4}.get(label)
+        if want_sample and len(chk.cov["samples"]) == want_sample - 1 and got[0] == "next" and got[1] != "MD" and (
+                label == "ops" or (label == "glob" and "*" in cj(c["choices"]) and len(c["input"].get("v", "")) > 2)
+                or (label == "trees" and tree_depth(c["choices"][0]) >= 2) or (label == "order" and got[1] != c["choices"][0]["Next"])):
             chk.sample({"stream": label, "choices": c["choices"], "default": c["default"], "input": c["input"],
                         "impl": got, "model": m})
         if tuple(got) != m:
@@ -501,7 +504,8 @@ def run_ts(chk, quick):
                        classify=classify)
     chk.cov["streams"]["ts.valid"] = len(recs)
     # malformed / boundary notations
-    mal = list(MALFORMED_TS)
+    mal = [c["text"] for c in common.load_corpus("C14") if c.get("stream") == "ts"] + list(MALFORMED_TS)
+    chk.cov["streams"]["ts.corpus"] = len(mal) - len(MALFORMED_TS)
     base = [fmt_ts(*DATES[0], [1, 2], 330, False), fmt_ts(*DATES[2], [], -75, False), fmt_ts(*DATES[3], [5], 0, True)]
     for b in base:
         for i in range(len(b)):
